@@ -38,7 +38,12 @@ pub fn enum_discriminants_inner(ast: &DeriveInput) -> syn::Result<TokenStream> {
     };
 
     // Work out the name
-    let default_name = syn::Ident::new(&format!("{}Discriminants", name), Span::call_site());
+    // `enum r#type` gets `typeDiscriminants`: the `r#` prefix is not part of the name (and
+    // `r#typeDiscriminants` is not an identifier `Ident::new` accepts).
+    let default_name = syn::Ident::new(
+        &format!("{}Discriminants", syn::ext::IdentExt::unraw(name)),
+        Span::call_site(),
+    );
 
     let discriminants_name = type_properties.discriminant_name.unwrap_or(default_name);
     let discriminants_vis = type_properties
